@@ -157,7 +157,7 @@ def run(ctx):
         ctx.note_inconclusive("vacuity: actions never taken in any configuration: %s" % sorted(never))
     base = FAMILY_QUICK[0]
     # TLC must find the known deadlock in the model of the unpatched code when it is not admitted
-    r = ctx.tlc(S, "MC_GlobalDelegate", "MC_GlobalDelegate.cfg", defines=base.defines(known=False), name="mc-noknown",
+    r = ctx.tlc(S, "MC_GlobalDelegate", "MC_GlobalDelegate_NoKnown.cfg", defines=base.defines(known=False), name="mc-noknown",
                 must_pass=False, count=False, timeout=900)
     ctx.extra["noknown_violates"] = r["violated"]
     if r["violated"] != "Stuck":
